@@ -134,3 +134,137 @@ UNITS = [
          broadcast=('l0', 'l0_powi'),
          notes='29 unary maps + powi (3 branches, exponent 2 and 3 via products) + powf'),
 ]
+
+# ---------------------------------------------------------------- operator impls on Vector
+from contracts import core
+from contracts.core import VEC, MAT, IV, IM
+
+OPS = [('Add', 'add', 'f_add'), ('Sub', 'sub', 'f_sub'), ('Mul', 'mul', 'f_mul'), ('Div', 'div', 'f_div')]
+VECTOR_IMPLS = []
+
+
+def _vec_impl(tr, meth, f, self_ty, rhs_ty):
+    hdr = 'impl ops::%s<%s> for %s' % (tr, rhs_ty, self_ty)
+    path = VEC + '{%s}::%s' % (hdr, meth)
+    tag = 'C04.impl.%s<%s>for%s' % (tr, rhs_ty.replace(' ', ''), self_ty.replace(' ', ''))
+    if self_ty == 'f64':
+        ens = [tag + '.len:: r.v@.len() == other.v@.len()',
+               tag + '.elem:: forall|k:int| 0 <= k < r.v@.len() ==> r.v@[k] == %s(self, other.v@[k])' % f]
+        return Fn(path, ret='r', ensures=ens)
+    if rhs_ty == 'f64':
+        ens = [tag + '.len:: r.v@.len() == self.v@.len()',
+               tag + '.elem:: forall|k:int| 0 <= k < r.v@.len() ==> r.v@[k] == %s(self.v@[k], other)' % f]
+        return Fn(path, ret='r', ensures=ens)
+    ens = [tag + '.valid:: self.v@.len() == other.v@.len()', tag + '.len:: r.v@.len() == self.v@.len()',
+           tag + '.elem:: forall|k:int| 0 <= k < r.v@.len() ==> r.v@[k] == %s(self.v@[k], other.v@[k])' % f]
+    return Fn(path, ret='r', ensures=ens)
+
+
+def _vec_assign(tr, meth, f, rhs_ty):
+    hdr = 'impl ops::%sAssign<%s> for Vector' % (tr, rhs_ty)
+    path = VEC + '{%s}::%s_assign' % (hdr, meth)
+    tag = 'C04.impl.%sAssign<%s>forVector' % (tr, rhs_ty)
+    rhs = 'other' if rhs_ty == 'f64' else 'other.v@[k]'
+    ens = ([] if rhs_ty == 'f64' else [tag + '.valid:: old(self).v@.len() == other.v@.len()']) + [
+        tag + '.len:: final(self).v@.len() == old(self).v@.len()',
+        tag + '.elem:: forall|k:int| 0 <= k < old(self).v@.len() ==> final(self).v@[k] == %s(old(self).v@[k], %s)' % (f, rhs)]
+    return Fn(path, ensures=ens)
+
+
+for tr, meth, f in OPS:
+    for s, r in [('Vector', 'Vector'), ('&Vector', '&Vector'), ('Vector', '&Vector'), ('&Vector', 'Vector'),
+                 ('Vector', 'f64'), ('&Vector', 'f64'), ('f64', 'Vector'), ('f64', '&Vector')]:
+        VECTOR_IMPLS.append(_vec_impl(tr, meth, f, s, r))
+    for r in ['Vector', '&Vector', 'f64']:
+        VECTOR_IMPLS.append(_vec_assign(tr, meth, f, r))
+
+VECTOR_UNARY = []
+for kname, meth in UNARY:
+    VECTOR_UNARY.append(Fn(IV + meth, ret='r', ensures=[
+        'C04.vec.%s.len:: r.v@.len() == self.v@.len()' % meth,
+        'C04.vec.%s.elem:: forall|k:int| 0 <= k < r.v@.len() ==> r.v@[k] == f_%s(self.v@[k])' % (meth, meth)]))
+VECTOR_UNARY.append(Fn(IV + 'powi', ret='r', ensures=[
+    'C04.vec.powi.len:: r.v@.len() == self.v@.len()',
+    'C04.vec.powi.elem:: forall|k:int| 0 <= k < r.v@.len() ==> r.v@[k] == f_powi(self.v@[k], arg)']))
+VECTOR_UNARY.append(Fn(IV + 'powf', ret='r', ensures=[
+    'C04.vec.powf.len:: r.v@.len() == self.v@.len()',
+    'C04.vec.powf.elem:: forall|k:int| 0 <= k < r.v@.len() ==> r.v@[k] == f_powf(self.v@[k], arg)']))
+
+_core_small = [core.F[VEC + '{impl Deref for Vector}::deref'], core.F[VEC + '{impl DerefMut for Vector}::deref_mut'],
+               core.F[VEC + '{impl<T> From<T> for Vector where T: Into<Vec<f64>>}::from']]
+UNITS.append(Unit('C04_vector_ops', 'C04', VECTOR_IMPLS + VECTOR_UNARY, use=_core_small + list(KERNELS.values()),
+                  types=core.TYPES, spec=core.CORE_SPEC, type_spec=core.TYPE_SPEC, preludes=PRE,
+                  broadcast=('l0', 'ax_vec_from_refl'),
+                  notes='44 std::ops impls for Vector (owned/borrowed/scalar-left/scalar-right/assign) and 31 element-wise map methods, '
+                        'each against the kernel contract; post-conditions generated from the impl header'))
+
+# ---------------------------------------------------------------- Matrix: same-shape kernels, scalar forms, assign forms, maps
+WF2 = ['C04.mat.wf:: wf(*m1) && wf(*m2)']
+MATMAT = {}
+for tr, meth, f in OPS:
+    name = 'matmat' + meth
+    MATMAT[name] = Fn(MAT + name, ret='r', requires=WF2,
+                      valid='m1.nrows == m2.nrows && m1.ncols == m2.ncols',
+                      ensures=['C04.%s.valid:: m1.nrows == m2.nrows && m1.ncols == m2.ncols' % name,
+                               'C04.%s.shape:: r.nrows == m1.nrows && r.ncols == m1.ncols && wf(r)' % name,
+                               'C04.%s.elem:: forall|k:int| 0 <= k < r.data.v@.len() ==> r.data.v@[k] == %s(m1.data.v@[k], m2.data.v@[k])' % (name, f)],
+                      panics={1: 'REJECT'})
+
+MATRIX_IMPLS = []
+
+
+def _mat_scalar(tr, meth, f, self_ty, rhs_ty):
+    hdr = 'impl %s<%s> for %s' % (tr, rhs_ty, self_ty)
+    path = MAT + '{%s}::%s' % (hdr, meth)
+    tag = 'C04.impl.%s<%s>for%s' % (tr, rhs_ty, self_ty)
+    if self_ty == 'f64':
+        m, e = 'other', '%s(self, other.data.v@[k])' % f
+    else:
+        m, e = 'self', '%s(self.data.v@[k], other)' % f
+    return Fn(path, ret='r', requires=[tag + '.wf:: wf(%s)' % _deref(m, self_ty, rhs_ty)],
+              ensures=[tag + '.shape:: r.nrows == %s.nrows && r.ncols == %s.ncols && wf(r)' % (m, m),
+                       tag + '.elem:: forall|k:int| 0 <= k < r.data.v@.len() ==> r.data.v@[k] == %s' % e])
+
+
+def _deref(m, self_ty, rhs_ty):
+    ty = self_ty if m == 'self' else rhs_ty
+    return '*' + m if ty.startswith('&') else m
+
+
+for tr, meth, f in OPS:
+    for s, r in [('Matrix', 'f64'), ('f64', 'Matrix'), ('&Matrix', 'f64'), ('f64', '&Matrix')]:
+        MATRIX_IMPLS.append(_mat_scalar(tr, meth, f, s, r))
+    # assign forms
+    for rhs in ['Matrix', '&Matrix']:
+        hdr = 'impl %sAssign<%s> for Matrix' % (tr, rhs)
+        tag = 'C04.impl.%sAssign<%s>forMatrix' % (tr, rhs)
+        o = '*other' if rhs.startswith('&') else 'other'
+        MATRIX_IMPLS.append(Fn(MAT + '{%s}::%s_assign' % (hdr, meth),
+                               valid='old(self).nrows == other.nrows && old(self).ncols == other.ncols',
+                               requires=[tag + '.wf:: wf(*old(self)) && wf(%s)' % o],
+                               ensures=[tag + '.valid:: old(self).nrows == other.nrows && old(self).ncols == other.ncols',
+                                        tag + '.shape:: final(self).nrows == old(self).nrows && final(self).ncols == old(self).ncols',
+                                        tag + '.len:: final(self).data.v@.len() == old(self).data.v@.len()',
+                                        tag + '.elem:: forall|k:int| 0 <= k < old(self).data.v@.len() ==> final(self).data.v@[k] == %s(old(self).data.v@[k], other.data.v@[k])' % f],
+                               panics={1: 'REJECT'}))
+    hdr = 'impl %sAssign<f64> for Matrix' % tr
+    tag = 'C04.impl.%sAssign<f64>forMatrix' % tr
+    MATRIX_IMPLS.append(Fn(MAT + '{%s}::%s_assign' % (hdr, meth),
+                           ensures=[tag + '.shape:: final(self).nrows == old(self).nrows && final(self).ncols == old(self).ncols',
+                                    tag + '.len:: final(self).data.v@.len() == old(self).data.v@.len()',
+                                    tag + '.elem:: forall|k:int| 0 <= k < old(self).data.v@.len() ==> final(self).data.v@[k] == %s(old(self).data.v@[k], other)' % f]))
+
+MATRIX_UNARY = []
+for kname, meth in UNARY + [('vpowi', 'powi'), ('vpowf', 'powf')]:
+    arg = ', arg' if meth in ('powi', 'powf') else ''
+    MATRIX_UNARY.append(Fn(IM + meth, ret='r', requires=['C04.mat.%s.wf:: wf(*self)' % meth], ensures=[
+        'C04.mat.%s.shape:: r.nrows == self.nrows && r.ncols == self.ncols && wf(r)' % meth,
+        'C04.mat.%s.elem:: forall|k:int| 0 <= k < r.data.v@.len() ==> r.data.v@[k] == f_%s(self.data.v@[k]%s)' % (meth, meth, arg)]))
+
+_core_all = core.core_stubs()
+UNITS.append(Unit('C04_matrix_ops', 'C04', list(MATMAT.values()) + MATRIX_IMPLS + MATRIX_UNARY,
+                  use=_core_all + list(KERNELS.values()) + VECTOR_UNARY,
+                  types=core.TYPES, spec=core.CORE_SPEC, type_spec=core.TYPE_SPEC, preludes=PRE,
+                  broadcast=('l0', 'ax_vec_from_refl'),
+                  notes='same-shape Matrix kernels, 16 scalar impls, 12 assign impls, 31 element-wise maps on Matrix; shape preserved, '
+                        'every element, mismatch rejected'))
